@@ -781,7 +781,7 @@ def _helpers(chk, ctx) -> None:
             q, rem = tup[1]
             total = T.add(T.mul(q, ('name', 'divisor')), rem)
             got.append(T.show(total))
-            ok = total == ('name', 'dividend')
+            ok = total == ('name', 'dividend') and q == T.spec('dividend / divisor')
     chk.ob('C01.helpers', 'utilities.divmod', ok and saw_builtin, dv.loc,
            'quotient * divisor + remainder == dividend symbolically on the non-integral path; the integral path is builtins.divmod(dividend, divisor)',
            got=got, want='dividend')
